@@ -208,3 +208,19 @@ Proof.
   apply filter_In in Hs. destruct Hs as [Hin Hc]. unfold coordinated_first_call in Hc.
   apply andb_true_iff in Hc. destruct Hc as [Hc _]. apply Z.eqb_eq in Hc. eauto.
 Qed.
+
+(* a failing update: nothing changes, nothing is deleted, the failure is reported *)
+Lemma change_scale_failed del set e c :
+  fst (change_scale_f true del set e c) = c /\
+  (snd (change_scale_f true del set e c) = true <-> exists old, spec_replicas c = Some old /\ old <> e).
+Proof.
+  unfold change_scale_f. destruct (spec_replicas c) as [old|] eqn:E.
+  - destruct (Z.eqb_spec old e); simpl; split; try reflexivity.
+    + split; [discriminate|]. intros [o [[= ->] Hne]]. contradiction.
+    + split; [|reflexivity]. intros _. eauto.
+  - simpl. split; [reflexivity|]. split; [discriminate|]. intros [o [H _]]. discriminate.
+Qed.
+Lemma change_scale_f_ok del set e c : change_scale_f false del set e c = (change_scale del set e c, false).
+Proof.
+  unfold change_scale_f, change_scale. destruct (spec_replicas c) as [old|]; [|reflexivity]. destruct (old =? e); reflexivity.
+Qed.
